@@ -105,6 +105,13 @@ func RedactMongoLog(jsonStr string) (*orderedmap.OrderedMap[string, any], error)
 		}
 		command, ok := attr.Get("command")
 		if !ok {
+			if redactNamespaces {
+				if ns, ok := attr.Get("ns"); ok {
+					if nsStr, ok := ns.(string); ok {
+						attr.Set("ns", HashName(nsStr))
+					}
+				}
+			}
 			return entry, nil
 		}
 		if cmdMap, ok := command.(*orderedmap.OrderedMap[string, any]); ok {
